@@ -219,7 +219,7 @@ def collect(corpus: E.Corpus, parallel: int = 6) -> tuple[dict[int, tuple[str, l
                 start = t["init"] if lo == 0 else {"s": t["steps"][lo - 1]["s"], "l": t["steps"][lo - 1]["l"]}
                 a["detail"] = {"meta": t["meta"], "start_state": start,
                                "requests": [s["hex"] for s in t["steps"][lo:idx]],
-                               "failing": {k: st[k] for k in ("hex", "rhex", "x", "s", "l", "a", "al")}}
+                               "failing": dict({k: st[k] for k in ("rhex", "x", "s", "l", "a", "al")}, hex=st["hex"][:64])}
     return verdicts, agg
 
 
@@ -280,7 +280,7 @@ def run(tier: str, seed: int) -> Report:
                 rep.nontrivial.add(hash((t["m"], o, prev, s["hex"])))
             prev = s["s"]
     for t in (corpus.traces[0], corpus.traces[-1]):
-        rep.sample({"model": t["meta"], "exchanges": [(s["hex"], s["rhex"], s["a"], s["s"]) for s in t["steps"][:8]]})
+        rep.sample({"model": t["meta"], "exchanges": [(s["hex"][:32], s["rhex"], s["a"], s["s"]) for s in t["steps"][:8]]})
     rep.extra.update(info)
     rep.extra["silent_steps"] = sum(1 for t in corpus.traces for s in t["steps"] if s["vk"] == "none")
     rep.extra["positive_replies"] = sum(1 for t in corpus.traces for s in t["steps"]
@@ -370,9 +370,13 @@ def replay(path: str) -> int:
 
         async def go() -> list[dict[str, Any]]:
             s = await E.make_server(meta["seed"], meta["params"])
-            s.state.session = d["start_state"]["s"]
-            s.state.security_access_level = None if d["start_state"]["l"] < 0 else d["start_state"]["l"]
-            pdus = [bytes.fromhex(h) for h in d["requests"] if ".." not in h]
+            m0 = E.model_of(s)
+            nav = E.nav_path(m0, 1, d["start_state"]["s"])
+            if nav is None:  # a session the model does not offer cannot be reached by requests
+                print(f"replay: start session {d['start_state']['s']:#x} is not offered by this model; set by assignment")
+                s.state.session = d["start_state"]["s"]
+                nav = []
+            pdus = [bytes([0x10, t]) for t in nav] + [bytes.fromhex(h) for h in d["requests"]]
             if meta.get("origin") == "tcp":
                 return await K.TcpLoop(s).history(pdus)
             p = K.ReplyProbe(s)
@@ -392,11 +396,10 @@ def replay(path: str) -> int:
 
         m = asyncio.run(model())
         c = E.Corpus()
-        c.add(m=c.model_index(m), B=E.ALL, mode="A", steps=steps, meta={},
-              init=(d["start_state"]["s"], d["start_state"]["l"]))
+        c.add(m=c.model_index(m), B=E.ALL, mode="A", steps=steps, meta={}, init=(1, -1))
         verdict = c.validate(parallel=1)[0][0] if steps else "ok"
         last = steps[-1] if steps else {}
-        print(f"replay path={meta.get('origin')} requests={d['requests'][-3:]} reply={last.get('rhex')} "
+        print(f"replay path={meta.get('origin')} requests={[h[:24] for h in d['requests'][-3:]]} reply={last.get('rhex')} "
               f"raised={last.get('x') or '-'} client={last.get('a')} verdict={verdict}")
         bad += verdict != "ok"
     E.unpatch_env()
